@@ -183,10 +183,12 @@ Section Proofs.
     intros Hi H. unfold deser_internal in H.
     destruct (pre_requires_version pr && _); [discriminate|].
     destruct (prelude_convert fn p pr maps d) as [conv|ex]; simpl in H; [|discriminate].
-    unfold construct in H.
-    destruct (negb (forallb _ (vc_required c))); [discriminate|].
-    destruct (negb (additional_allowed c o) && _); [discriminate|].
-    inversion H; subst st. unfold has_version. apply init_ok_version. exact Hi.
+    destruct (o_trusted o && vc_trusted_eligible c).
+    - unfold trusted_construct in H. inversion H; subst st. unfold has_version. apply init_ok_version. exact Hi.
+    - unfold construct in H.
+      destruct (negb (forallb _ (vc_required c))); [discriminate|].
+      destruct (negb (additional_allowed c o) && _); [discriminate|].
+      inversion H; subst st. unfold has_version. apply init_ok_version. exact Hi.
   Qed.
 
   (* ... and no attribute of the instance comes from anywhere but the converted document: a key that the
@@ -205,15 +207,18 @@ Section Proofs.
     rewrite (has_version_dict_has _ _ Hv), P1 in Hd.
     rewrite andb_false_r in Hd. simpl in Hd.
     rewrite !(sites_ok_reads _ _ Hs) in Hd.
-    unfold construct in Hd.
-    destruct (negb (forallb _ (vc_required c))); [discriminate|].
-    destruct (negb (additional_allowed c o) && _); [discriminate|].
-    inversion Hd; subst st.
-    apply init_other_key; [exact Hne|].
-    apply dict_get_update_none.
-    - apply fields_map_str_keys.
-    - apply undefined_kwargs_none. exact Hnone.
-    - apply fields_map_none. exact Hnone.
+    destruct (o_trusted o && vc_trusted_eligible c).
+    - unfold trusted_construct in Hd. inversion Hd; subst st.
+      apply init_other_key; [exact Hne|]. apply dict_get_filter_none. exact Hnone.
+    - unfold construct in Hd.
+      destruct (negb (forallb _ (vc_required c))); [discriminate|].
+      destruct (negb (additional_allowed c o) && _); [discriminate|].
+      inversion Hd; subst st.
+      apply init_other_key; [exact Hne|].
+      apply dict_get_update_none.
+      + apply fields_map_str_keys.
+      + apply undefined_kwargs_none. exact Hnone.
+      + apply fields_map_none. exact Hnone.
   Qed.
 End Proofs.
 
@@ -222,9 +227,14 @@ End Proofs.
 (* history: one step that renames "old" to "new"; a class with the single field "new" that allows extras *)
 Definition w_maps : list mapping := [ [ (s2p "new", MKey (s2p "old")); (s2p "old", MDeleted) ] ].
 Definition w_doc : dict := [ (PStr (s2p "version"), PNum (NInt 1)); (PStr (s2p "old"), PNum (NInt 5)) ].
-Definition w_class : vclass := {| vc_fields := [s2p "new"]; vc_required := []; vc_additional := None |}.
+Definition w_class : vclass :=
+  {| vc_fields := [s2p "new"]; vc_required := []; vc_additional := None; vc_trusted_eligible := true |}.
 Definition w_opts : dopts :=
-  {| o_keep_undefined := Some true; o_additional_default := true; o_ignore_invalid_additional := true |}.
+  {| o_keep_undefined := Some true; o_trusted := false; o_additional_default := true;
+     o_ignore_invalid_additional := true |}.
+Definition w_opts_trusted : dopts :=
+  {| o_keep_undefined := None; o_trusted := true; o_additional_default := true;
+     o_ignore_invalid_additional := true |}.
 Definition w_conv : dict := [ (PStr (s2p "version"), PNum (NInt 2)); (PStr (s2p "new"), PNum (NInt 5)) ].
 
 (* the kept "undefined" keys read from the caller's document: the deleted key comes back as an attribute *)
@@ -247,6 +257,16 @@ Lemma deser_raw_fields_refuted :
                  w_class w_opts w_maps w_doc
   <> deser_internal std_fn std_cd_params std_prelude raw_fields_sites (InitForce 1) EDeserializer
                     w_class w_opts w_maps w_conv.
+Proof. vm_compute. discriminate. Qed.
+
+(* the trusted branch handed the caller's document: the renamed field is never populated *)
+Definition raw_trusted_sites : list site :=
+  [ (RTrusted, Raw); (RIsDict, Converted); (RUndefined, Converted); (RFields, Converted) ].
+Lemma deser_raw_trusted_refuted :
+  deser_internal std_fn std_cd_params std_prelude raw_trusted_sites (InitForce 1) EDeserializer
+                 w_class w_opts_trusted w_maps w_doc
+  <> deser_internal std_fn std_cd_params std_prelude raw_trusted_sites (InitForce 1) EDeserializer
+                    w_class w_opts_trusted w_maps w_conv.
 Proof. vm_compute. discriminate. Qed.
 
 (* a constructor that only fills in a missing version lets a stale one through *)
